@@ -898,6 +898,13 @@ class VWorld:
         U.WORLD.kill_hook = lambda: killed_at.append((len(child.script), [len(q.buf) for q in self.queue_order]))
         if child.doomed:
             U.WORLD.kill_labels = frozenset([tk[1]])
+        # runaway recursion inside a (virtual) worker must end as a crash of that worker, not as a
+        # C-stack overflow of the checker: a tight recursion limit while the worker's code runs
+        depth, fr = 0, sys._getframe()
+        while fr is not None:
+            depth, fr = depth + 1, fr.f_back
+        saved_limit = sys.getrecursionlimit()
+        sys.setrecursionlimit(min(saved_limit, depth + 350))
         try:
             try:
                 target(*proc.args, **kwargs)
@@ -950,6 +957,7 @@ class VWorld:
                 child.script = [ev for ev in child.script if ev[0] != 'storage' and not (ev[0] == 'put' and ev[1] is self.result_queue)]
                 child.script = [ev for ev in child.script if ev[0] != 'exit'] + [('exit',)]
         finally:
+            sys.setrecursionlimit(saved_limit)
             U.WORLD.kill_labels, U.WORLD.kill_hook = saved_kill
             MemStorage.STAGE = None
             self.current_child = None
